@@ -278,6 +278,12 @@ func runC37Cap(ctx *ev.Ctx, c c37Case) {
 		out, races = c37ExecuteCap(c)
 		for _, r := range races {
 			key, what := classifyRace(r)
+			if key == "" {
+				// raised while the harness tears the server down (TXPoolServer.Stop / actor Stop): shutdown is outside
+				// C37's statement (bookkeeping while the pool serves requests); counted, not judged
+				ctx.Label("cap:race-report-at-teardown:not-judged")
+				continue
+			}
 			ctx.Label("cap:race-report")
 			ctx.Known(key, "%s", what)
 		}
@@ -311,6 +317,18 @@ func runC37Cap(ctx *ev.Ctx, c c37Case) {
 func classifyRace(report string) (key, what string) {
 	var fns []string
 	lines := strings.Split(report, "\n")
+	// a conflicting access made from the teardown path (the harness stopping the server and its actors after the
+	// case) is not pool bookkeeping under load: see the caller
+	for _, l := range lines {
+		l = strings.TrimSpace(l)
+		if strings.HasPrefix(l, "Goroutine ") {
+			break // creation stacks below do not matter
+		}
+		if strings.HasPrefix(l, "github.com/polynetwork/poly/txnpool/proc.(*TXPoolServer).Stop()") ||
+			strings.HasPrefix(l, "github.com/ontio/ontology-eventbus/actor.(*PID).Stop()") {
+			return "", ""
+		}
+	}
 	for i := 0; i < len(lines); i++ {
 		l := strings.TrimSpace(lines[i])
 		if strings.HasPrefix(l, "Write at") || strings.HasPrefix(l, "Read at") || strings.HasPrefix(l, "Previous write at") || strings.HasPrefix(l, "Previous read at") ||
